@@ -115,7 +115,7 @@ def run_case(case):
             b = [list(x) for x in case['b']]
             res = isect.intersection(a, b, method)
             out['calls'].append({'status': 'ok', 'value': canon_val(res[0])})
-        except Exception as exc:  # noqa
+        except (Exception, SystemExit) as exc:  # noqa
             out['calls'].append(classify(exc))
         return out
     try:
@@ -138,7 +138,7 @@ def run_case(case):
         if case.get('pastify'):
             spec.pastify()
         out['setup'] = {'status': 'ok', 'value': None}
-    except Exception as exc:  # noqa
+    except (Exception, SystemExit) as exc:  # noqa
         out['setup'] = classify(exc)
         return out
     for call in case.get('calls', []):
@@ -184,7 +184,7 @@ def run_case(case):
                 res = {'status': 'ok', 'value': canon_val(ex)}
             else:
                 raise ValueError('unknown call ' + kind)
-        except Exception as exc:  # noqa
+        except (Exception, SystemExit) as exc:  # noqa
             res = classify(exc)
         out['calls'].append(res)
     return out
@@ -278,7 +278,7 @@ def run_multi(mcase):
         try:
             objs.append(setup_spec(case))
             out['setup'].append({'status': 'ok'})
-        except Exception as exc:  # noqa
+        except (Exception, SystemExit) as exc:  # noqa
             objs.append(None)
             out['setup'].append(classify(exc))
     for (oi, ci) in mcase['schedule']:
@@ -288,7 +288,7 @@ def run_multi(mcase):
             continue
         try:
             out['calls'].append(do_call(objs[oi], case, case['calls'][ci]))
-        except Exception as exc:  # noqa
+        except (Exception, SystemExit) as exc:  # noqa
             out['calls'].append(classify(exc))
     return out
 
